@@ -992,6 +992,18 @@ pub async fn commit_compaction(
     // If we aren't using stable row ids, then we need to remap indices.
     let needs_remapping = !dataset.manifest.uses_stable_row_ids() && !options.defer_index_remap;
 
+    // With stable row ids the tasks did not reserve fragment ids (see rewrite_files).  Reserve them
+    // here, before they are recorded in the rewrite groups, the index fragment bitmaps and the
+    // fragment reuse index.
+    let mut completed_tasks = completed_tasks;
+    if dataset.manifest.uses_stable_row_ids() {
+        let new_fragments = completed_tasks
+            .iter_mut()
+            .flat_map(|task| task.new_fragments.iter_mut())
+            .collect::<Vec<_>>();
+        reserve_fragment_ids(dataset, new_fragments.into_iter()).await?;
+    }
+
     let mut rewrite_groups = Vec::with_capacity(completed_tasks.len());
     let mut metrics = CompactionMetrics::default();
 
@@ -1040,15 +1052,6 @@ pub async fn commit_compaction(
                 new_index_version: rewritten.index_version,
             })
             .collect()
-    } else if !options.defer_index_remap {
-        // We need to reserve fragment ids here so that the fragment bitmap
-        // can be updated for each index.
-        let new_fragments = rewrite_groups
-            .iter_mut()
-            .flat_map(|group| group.new_fragments.iter_mut())
-            .collect::<Vec<_>>();
-        reserve_fragment_ids(dataset, new_fragments.into_iter()).await?;
-        Vec::new()
     } else {
         Vec::new()
     };
